@@ -51,6 +51,7 @@ func main() {
 	timed("keys", func() { e.sectionKeys(pool, seed) })
 	timed("keysets", func() { e.sectionKeysets(pool, seed) })
 	timed("fallback", func() { e.sectionFallback(seed) })
+	timed("builders", func() { e.sectionBuilders(pool, seed) })
 
 	o.Hist["apis"] = len(e.apis)
 	o.Hist["apis-skipped"] = len(e.skipped)
